@@ -37,6 +37,7 @@ def run(tier):
     run.bounds = ['symbolic: ranges <=6 (1-dim), <=4 (2-dim), <=3 (3-dim, thorough); binary mappings n<=4, m<=9; offset unbounded',
                   'enumerative: blocks <=4x4 / 3x3x3 / 2x2x3x2, words n<=4,k<=3, graphs B(2,2),B(2,3),B(3,2),G(3),G(4),DG(2),DG(3), mappings n<=3,m<=9',
                   'histories: 2 operations (7 kinds, sizes<=2) and 3 operations']
+    run.bounds += ['wrong number of index coordinates: 9 group types x dropped/appended/None coordinate x wildcard', 'lists returned by to_index are edited before the next query']
     run.outside = ['bit width ceil(log2 m) for m>9 (floating point log)', 'blocks with more than 4 dimensions', 'longer histories', 'word groups with k=0 (a call without arguments is ambiguous there by API design)']
     run.assumptions = ['CrossHair models of int arithmetic, range membership and list indexing', 'default label formats as documented in the new_* signatures']
     T = 300 if tier == 'quick' else 1500
